@@ -66,4 +66,39 @@ theorem reset_on_success_caps :
       [(.initiated, false), (.initiated, false), (.initiated, false), (.initiated, false), (.initiated, false),
        (.maxAttemptsExceeded, true), (.maxAttemptsExceeded, true)] := by decide
 
+
+/-! ## The loader and the hook cache -/
+
+/-- a component that writes `restartHookOn: []` -/
+def wEmpty : Written := ⟨none, none, some []⟩
+def exhaustedTask : Inp := ⟨.resourceExhausted, .ctx .possible, false, false, true, .task⟩
+
+/-- a defaulting of the `written or default` kind turns the explicit empty list into `[ResourceExhausted]` and the
+task of a component that lists nothing is started again (three times: the default budget) … -/
+theorem falsy_defaulting_restarts_unlisted :
+    (loadFalsy wEmpty).hookOn = [.resourceExhausted] ∧
+    (exec false ((loadFalsy wEmpty).cfg false false .scripted) St.init (List.replicate 4 exhaustedTask)).map (·.code) =
+      [.initiated, .initiated, .initiated, .maxAttemptsExceeded] := by decide
+
+/-- … and loses an explicit `maxRestarts: 0`; the loader as it is keeps both. -/
+theorem falsy_defaulting_loses_zero :
+    (loadFalsy ⟨some 0, none, none⟩).maxRestarts = none ∧ (load ⟨some 0, none, none⟩).maxRestarts = some 0 ∧
+    (exec false ((load wEmpty).cfg false false .scripted) St.init (List.replicate 4 exhaustedTask)).all
+      (fun e => e.code != .initiated) = true := by decide
+
+def allowRefuse : String → HookAns := fun f => if f = "allow.py" then .ctx .possible else .ctx .notPossible
+def firstSecond : Nat → MCfg := fun k =>
+  ⟨⟨none, true, [.resourceExhausted], false, false, .scripted⟩, if k = 0 then "allow.py" else "refuse.py"⟩
+
+/-- importing the hook once per instance (cache keyed by the hooks directory only): the component whose own file
+refuses is restarted by the answer of the other component's file (and without bound: hook file named, no maximum),
+while with per-component selection it is refused and gets its final state. -/
+theorem shared_hook_cache_restarts_refused_component :
+    (allowRefuse (firstSecond 1).hookFile).refuses = true ∧
+    (eventsOf 1 (mexecCached true allowRefuse firstSecond none (fun _ => St.init)
+      ([⟨0, exhaustedTask⟩] ++ List.replicate 6 ⟨1, exhaustedTask⟩))).all (fun e => e.code == .initiated) = true ∧
+    (eventsOf 1 (mexec true allowRefuse firstSecond (fun _ => St.init)
+      ([⟨0, exhaustedTask⟩] ++ List.replicate 6 ⟨1, exhaustedTask⟩))).all (fun e => e.code != .initiated) = true := by
+  decide
+
 end St4sd.C12.Witness
